@@ -503,6 +503,20 @@ def part_c(arg):
             foreign[i] ^= 0x01
             check(f"foreign-magic@{i}", bytes(foreign), ref)
         p.sig(("C", opt, "foreign-magic"))
+        # entries written by OTHER interpreter versions: the cache module is loaded a second time with
+        # sys.version_info / sys.hexversion of a neighbouring release, which yields the magic that release
+        # would write; the entry carries the checksum of the current source but the code of another source,
+        # so accepting it is visible in the output
+        other_code = open(fb, "rb").read()[len(bc.bc_magic):]
+        import pickle as _p
+
+        other_payload = other_code[len(_p.dumps(bcc.get_source_checksum(source("b", 1)), 2)):]
+        mine = _p.dumps(bcc.get_source_checksum(source("a", 1)), 2)
+        for ver in ((3, 11), (3, 13), (3, 9), (2, 7), (4, 0)):
+            fm = foreign_magic(ver)
+            # (if the magic does not distinguish the versions the crafted entry is simply accepted below)
+            check(f"foreign-interpreter@{ver[0]}.{ver[1]}", fm + mine + other_payload, ref)
+        p.sig(("C", opt, "foreign-interpreter"))
         check("stale-checksum", good_a, ref2, mapping_a=source("a", 2))
         p.sig(("C", opt, "stale"))
         check("swapped", good_b, ref)
@@ -518,6 +532,30 @@ def part_c(arg):
         p.sample({"part": "C", "config": opt, "entry_bytes": len(good_a), "damage": ["truncated@1..len-1", "foreign-magic@i", "stale-checksum", "swapped", "empty"]}, cap=1)
     shutil.rmtree(root, ignore_errors=True)
     return p
+
+
+def foreign_magic(ver):
+    """bc_magic as jinja2.bccache computes it under another interpreter version"""
+    import importlib.util
+    import sys
+
+    import jinja2.bccache as bc
+
+    class VI(tuple):
+        major = property(lambda self: self[0])
+        minor = property(lambda self: self[1])
+
+    real_vi, real_hex = sys.version_info, sys.hexversion
+    spec = importlib.util.spec_from_file_location("jinja2._bccache_foreign", bc.__file__)
+    mod = importlib.util.module_from_spec(spec)
+    mod.__package__ = "jinja2"
+    try:
+        sys.version_info = VI((ver[0], ver[1], 0, "final", 0))
+        sys.hexversion = (ver[0] << 24) | (ver[1] << 16) | 0xF0
+        spec.loader.exec_module(mod)
+    finally:
+        sys.version_info, sys.hexversion = real_vi, real_hex
+    return mod.bc_magic
 
 
 class FakeClient:
